@@ -99,6 +99,10 @@ def apply_clauses(src, clauses):
                 raise LostAnchor(f"rewrite_all anchor does not occur: {c['old'][:60]!r}")
             src = src.replace(c["old"], c["new"])
     for c in clauses:
+        if c["op"] == "rewrite_opt":
+            # a type-level adaptation that applies wherever the construct occurs, and is not needed where it does not
+            src = src.replace(c["old"], c["new"])
+    for c in clauses:
         if c["op"] == "rewrite":
             n = src.count(c["old"])
             if n != 1:
@@ -106,7 +110,7 @@ def apply_clauses(src, clauses):
             src = src.replace(c["old"], c["new"])
     toks = lex(src)
     edits = []
-    if all(c["op"] in ("rewrite", "rewrite_all", "replace_range", "rename", "before", "after", "tail", "after_stmt", "attr") for c in clauses):
+    if all(c["op"] in ("rewrite", "rewrite_all", "rewrite_opt", "replace_range", "rename", "before", "after", "tail", "after_stmt", "attr") for c in clauses):
         fnk, body = -1, -1
     else:
         fnk, body = _fn_parts(src, toks)
@@ -117,7 +121,7 @@ def apply_clauses(src, clauses):
         loops, closures = [], []
     for c in clauses:
         op = c["op"]
-        if op in ("rewrite", "rewrite_all", "replace_range", "rename"):
+        if op in ("rewrite", "rewrite_all", "rewrite_opt", "replace_range", "rename"):
             continue
         if op == "sig":
             pos = toks[body].start if body >= 0 else toks[-1].start
